@@ -282,3 +282,28 @@ func (m *Model) Updates(c, i, b, nbObs int) UpdExp {
 	}
 	return out
 }
+
+// ExpectedReverse is the reference for Update.Reverse of version index k of way child c: the
+// way is traversed in the opposite direction to its previous version. It is only defined
+// (ok) when this and the previous version are both visible (both have nodes). Open ways:
+// reversed iff the two versions have the same pair of end nodes in swapped positions (the
+// library documents "just check the endpoints"); closed rings: iff the winding changes.
+// Computed from the model's own bookkeeping (Rev, Alt), not from coordinates.
+func (m *Model) ExpectedReverse(c, k int) (rev bool, ok bool) {
+	ch := &m.H.Children[c]
+	vs := m.vers(c)
+	if ch.Type != "way" || k <= 0 || k >= len(vs) || !vs[k].Visible || !vs[k-1].Visible {
+		return false, false
+	}
+	cur, prev := vs[k], vs[k-1]
+	if ch.Closed {
+		return cur.Rev != prev.Rev, true
+	}
+	endsOf := func(v Ver) int {
+		if (v.Alt == 2 || v.Alt == 3) && !m.H.Ring {
+			return v.Alt
+		}
+		return 0
+	}
+	return endsOf(cur) == endsOf(prev) && cur.Rev != prev.Rev, true
+}
